@@ -198,6 +198,21 @@ Definition wf_hier (k : kind) (H : hier) : Prop :=
   (forall c l1 l2, h_mro H c = l1 ++ h_root H :: l2 ->
      forall x, In x l2 -> h_has H x = false).
 
+(** ** The hierarchy of a table of MROs *)
+
+(** the setting exists on the classes that have the root in their MRO ... *)
+Definition has_root (tbl : list (option (list nat))) (root c : nat) : bool :=
+  memb root (mro_of tbl c).
+(** ... forced support: on every image class (one whose metaclass is [ImageMeta]) *)
+Definition hier_c3 (tbl : list (option (list nat))) (img : nat -> bool) (root : nat)
+           (st : setting) : hier :=
+  {| h_mro := mro_of tbl;
+     h_has := match st with
+              | SFs => fun c => img c && memb c (mro_of tbl c)
+              | _ => has_root tbl root
+              end;
+     h_root := root |}.
+
 (** ** The single-inheritance forest as a hierarchy: the MRO of a class is its chain of
     parents *)
 Fixpoint chain (par : nat -> nat) (fuel c : nat) : list nat :=
